@@ -522,13 +522,13 @@ theorem reduce_spec (fn : Nat → Nat → Nat) (a : Arr) (r0 : Nat) (m : Mem) (h
 
 /-! ### constructor, destructor -/
 
-/-- `cc_array_new_conf`: invalid capacity → rejected without touching the allocator; refusal →
-`CC_ERR_ALLOC`, no object, balanced ledger; otherwise an empty sound array owning two blocks.
-`hex`: the effective expansion factor is non-negative (it is > 1 by construction), so a capacity
-above `CC_MAX_ELEMENTS` fails the constructor's float test. -/
-theorem new_spec (cap : Nat) (grow : Nat → Nat) (exGe : Nat → Bool) (m : Mem) (hex : exGe 0 = true) :
+/-- `cc_array_new_conf`: invalid capacity (0, a factor too large for it, or a buffer whose byte
+size would wrap — A9) → rejected without touching the allocator; refusal → `CC_ERR_ALLOC`, no
+object, balanced ledger; otherwise an empty sound array owning two blocks -/
+theorem new_spec (cap : Nat) (grow : Nat → Nat) (exGe : Nat → Bool) (m : Mem) :
     ((Arr.new cap grow exGe m).1 = .errInvalidCapacity ∧ (Arr.new cap grow exGe m).2.1 = none ∧
-      (Arr.new cap grow exGe m).2.2 = m) ∨
+      (Arr.new cap grow exGe m).2.2 = m ∧
+      (cap = 0 ∨ exGe (Gen.CC_MAX_ELEMENTS / cap) = true ∨ Gen.CC_MAX_ELEMENTS / 8 < cap)) ∨
     ((Arr.new cap grow exGe m).1 = .errAlloc ∧ (Arr.new cap grow exGe m).2.1 = none ∧ 1 ≤ cap ∧
       (alloc2 m).1 = false ∧
       (Arr.new cap grow exGe m).2.2.live = m.live ∧ (Arr.new cap grow exGe m).2.2.fault = m.fault) ∨
@@ -541,34 +541,34 @@ theorem new_spec (cap : Nat) (grow : Nat → Nat) (exGe : Nat → Bool) (m : Mem
   · simp only [h0, if_false]
     by_cases h1 : exGe (Gen.CC_MAX_ELEMENTS / cap) = true
     · left; simp [h1]
-    · right
-      have hcap : cap ≤ Gen.CC_MAX_ELEMENTS := by
-        apply Decidable.byContradiction
-        intro hgt
-        have : Gen.CC_MAX_ELEMENTS / cap = 0 := Nat.div_eq_of_lt (by omega)
-        rw [this] at h1
-        exact h1 hex
-      simp only [h1, Bool.false_eq_true, if_false]
-      have ha := alloc2_cases m
-      unfold alloc2 at ha ⊢
-      rcases alloc_cases m with ⟨g1, g2, g3⟩ | ⟨g1, g2, g3⟩
-      · simp only [g1, Bool.not_true, Bool.false_eq_true, if_false] at ha ⊢
-        rcases alloc_cases m.alloc.2 with ⟨k1, k2, k3⟩ | ⟨k1, k2, k3⟩
-        · right
-          simp only [k1, Bool.not_true, Bool.false_eq_true, if_false] at ha ⊢
-          rcases ha with ha | ha
-          · exact ⟨by trivial, by trivial, _, rfl, by simp [abs], ⟨by simp, by simp, by simp only; omega, hcap⟩, rfl, rfl, ha.2.1, ha.2.2⟩
-          · simp at ha
+    · simp only [h1, Bool.false_eq_true, if_false]
+      by_cases h8 : cap > Gen.CC_MAX_ELEMENTS / 8
+      · left; simp [h8]
+      · right
+        have hcap : cap ≤ Gen.CC_MAX_ELEMENTS := by
+          have : Gen.CC_MAX_ELEMENTS / 8 ≤ Gen.CC_MAX_ELEMENTS := Nat.div_le_self _ _
+          omega
+        simp only [h8, if_false]
+        have ha := alloc2_cases m
+        unfold alloc2 at ha ⊢
+        rcases alloc_cases m with ⟨g1, g2, g3⟩ | ⟨g1, g2, g3⟩
+        · simp only [g1, Bool.not_true, Bool.false_eq_true, if_false] at ha ⊢
+          rcases alloc_cases m.alloc.2 with ⟨k1, k2, k3⟩ | ⟨k1, k2, k3⟩
+          · right
+            simp only [k1, Bool.not_true, Bool.false_eq_true, if_false] at ha ⊢
+            rcases ha with ha | ha
+            · exact ⟨by triv, by triv, _, rfl, by simp [abs], ⟨by simp, by simp, by simp only; omega, hcap⟩, rfl, rfl, ha.2.1, ha.2.2⟩
+            · simp at ha
+          · left
+            simp only [k1, Bool.not_false, if_true] at ha ⊢
+            rcases ha with ha | ha
+            · simp at ha
+            · exact ⟨by triv, by triv, by omega, by triv, ha.2.1, ha.2.2⟩
         · left
-          simp only [k1, Bool.not_false, if_true] at ha ⊢
+          simp only [g1, Bool.not_false, if_true] at ha ⊢
           rcases ha with ha | ha
           · simp at ha
-          · exact ⟨by trivial, by trivial, by omega, by trivial, ha.2.1, ha.2.2⟩
-      · left
-        simp only [g1, Bool.not_false, if_true] at ha ⊢
-        rcases ha with ha | ha
-        · simp at ha
-        · exact ⟨by trivial, by trivial, by omega, by trivial, ha.2.1, ha.2.2⟩
+          · exact ⟨by triv, by triv, by omega, by triv, ha.2.1, ha.2.2⟩
 
 /-- `cc_array_destroy` releases the two blocks of the array -/
 theorem destroy_spec (a : Arr) (m : Mem) (hlive : 2 ≤ m.live) :
